@@ -370,3 +370,91 @@ pub fn panic_msg(e: &Box<dyn std::any::Any + Send>) -> String {
 pub fn panic_in_repo(msg: &str) -> bool {
     msg.starts_with("/repo/") || msg.contains("/repo/yash-") || msg.starts_with("yash-")
 }
+
+// ---------------------------------------------------------------- CPU-time watchdog
+//
+// Non-termination is decided on CPU time consumed by the worker thread on one case (independent
+// of machine load), not on wall-clock time.
+
+struct GuardSlot {
+    clock: libc::clockid_t,
+    start_ns: u128,
+    desc: String,
+    active: bool,
+}
+
+static GUARDS: Mutex<Vec<GuardSlot>> = Mutex::new(Vec::new());
+
+thread_local! {
+    static GUARD_IDX: std::cell::Cell<Option<usize>> = const { std::cell::Cell::new(None) };
+}
+
+fn thread_cpu_ns(clock: libc::clockid_t) -> u128 {
+    let mut ts = libc::timespec { tv_sec: 0, tv_nsec: 0 };
+    // SAFETY: plain libc call with a valid out pointer
+    unsafe { libc::clock_gettime(clock, &mut ts) };
+    ts.tv_sec as u128 * 1_000_000_000 + ts.tv_nsec as u128
+}
+
+/// Mark the start of a case on the current thread (for the CPU-time watchdog).
+pub fn guard_case(desc: impl FnOnce() -> String) {
+    let idx = GUARD_IDX.with(|g| g.get());
+    let mut guards = GUARDS.lock().unwrap();
+    let idx = match idx {
+        Some(i) => i,
+        None => {
+            let mut clock: libc::clockid_t = 0;
+            // SAFETY: pthread_self is always valid for the calling thread
+            unsafe { libc::pthread_getcpuclockid(libc::pthread_self(), &mut clock) };
+            guards.push(GuardSlot {
+                clock,
+                start_ns: 0,
+                desc: String::new(),
+                active: false,
+            });
+            let i = guards.len() - 1;
+            GUARD_IDX.with(|g| g.set(Some(i)));
+            i
+        }
+    };
+    let clock = guards[idx].clock;
+    guards[idx].start_ns = thread_cpu_ns(clock);
+    guards[idx].desc = desc();
+    guards[idx].active = true;
+}
+
+pub fn unguard_case() {
+    if let Some(i) = GUARD_IDX.with(|g| g.get()) {
+        GUARDS.lock().unwrap()[i].active = false;
+    }
+}
+
+/// Start the watchdog: a case that consumes more than `limit_s` seconds of CPU on its thread is a
+/// non-termination violation: written to a replay file, reported, and the process exits with 1.
+pub fn start_watchdog(property: String, limit_s: u64) {
+    std::thread::spawn(move || {
+        loop {
+            std::thread::sleep(std::time::Duration::from_millis(500));
+            let guards = GUARDS.lock().unwrap();
+            for g in guards.iter() {
+                if !g.active {
+                    continue;
+                }
+                let used = thread_cpu_ns(g.clock).saturating_sub(g.start_ns);
+                if used > limit_s as u128 * 1_000_000_000 {
+                    let dir = std::env::var("VERIF_OUT").or_else(|_| std::env::var("VERIF_DIR")).unwrap_or_else(|_| "/verif".into());
+                    let path = format!("{dir}/replay/{property}/cpu-budget-exceeded.txt");
+                    std::fs::create_dir_all(format!("{dir}/replay/{property}")).ok();
+                    std::fs::write(
+                        &path,
+                        format!("property={property}\nsignature=cpu-budget-exceeded\n---\na single case consumed more than {limit_s} s of CPU time on its thread (non-termination):\n{}\n", g.desc),
+                    )
+                    .ok();
+                    println!("VIOLATION property={property} replay={path}");
+                    println!("  signature: cpu-budget-exceeded");
+                    std::process::exit(1);
+                }
+            }
+        }
+    });
+}
